@@ -57,9 +57,13 @@ type Gen struct {
 	entry    *State
 	modset   func(r string) string // "ref r may be modified by the top function" ; nil = nothing
 	modRefs  []string
+	recvSliceInv func(st *State) []string
+	inputBufs  []string // []byte parameters that must not be retained (noalias mode)
+	inputNames []string
 	modAll   bool
 	checkFrame bool
 	unsupported int
+	variant  string // specialization suffix of the function under verification
 	allocs   map[string]allocType
 	preds    map[string]*typePredT
 }
@@ -135,7 +139,7 @@ func (g *Gen) oblige(kind, detail, reach, cond string, pos token.Position, text 
 		return nil
 	}
 	g.seq++
-	base := fmt.Sprintf("%s:%s:%s", shortFn(g.top), kind, detail)
+	base := fmt.Sprintf("%s%s:%s:%s", shortFn(g.top), g.variant, kind, detail)
 	k := g.nameCnt[base]
 	g.nameCnt[base] = k + 1
 	name := fmt.Sprintf("%s#%d", base, k)
@@ -541,7 +545,9 @@ func (a *Act) val(v ssa.Value) string {
 	case *ssa.Global:
 		return fmt.Sprintf("(mkPtr (- %d) 0)", g.eng.globalID(v))
 	case *ssa.Function:
-		return fmt.Sprintf("(mkIface %d (bOpaque %d))", g.tag(v.Type()), g.eng.funcID(v))
+		t := fmt.Sprintf("(mkIface %d (bOpaque %d))", g.tag(v.Type()), g.eng.funcID(v))
+		g.eng.funcByTerm[t] = v
+		return t
 	case *ssa.Builtin:
 		return "nilIface"
 	}
@@ -881,6 +887,7 @@ type loopCtx struct {
 	auto      []autoInv
 	lexers    []ssa.Value
 	lexInv    func(st *State, v ssa.Value) string
+	aliasInv  func(st *State) []string
 	freshPhis []*ssa.Phi
 	freshTerm func(t string, st *State) string
 }
@@ -1050,6 +1057,25 @@ func (a *Act) loopHead(b *ssa.BasicBlock, ins []edgeIn, backs []*ssa.BasicBlock,
 		g.oblige("inv-init", lname+":auto:fresh("+phi.Comment+")", reach, freshTerm(entryEnv[phi], stIn), p0, "automatic invariant: locally built slice stays in fresh memory")
 	}
 	lc.freshTerm = freshTerm
+	// noalias mode: no pre-existing object holds a slice into an input buffer (automatic invariant)
+	aliasInv := func(st *State) []string {
+		var out []string
+		for _, p := range g.inputBufs {
+			for _, k := range []string{"L", "ML"} {
+				out = append(out, fmt.Sprintf("(forall ((r Int) (o Int)) (! (=> (< r %s) (or (= (sref %s) 0) (not (= (sref (select (select %s r) o)) (sref %s))))) :pattern ((select (select %s r) o))))", g.entry.Next, p, st.H[k], p, st.H[k]))
+			}
+		}
+		return out
+	}
+	for i, c := range aliasInv(stIn) {
+		g.oblige("inv-init", fmt.Sprintf("%s:auto:noalias#%d", lname, i), reach, c, p0, "automatic invariant: no pre-existing object holds a slice into an input buffer")
+	}
+	lc.aliasInv = aliasInv
+	if g.recvSliceInv != nil && a.top {
+		for i, c := range g.recvSliceInv(stIn) {
+			g.oblige("inv-init", fmt.Sprintf("%s:auto:recv-slices#%d", lname, i), reach, c, p0, "automatic invariant: slices of the receiver use their original array or memory allocated during the call")
+		}
+	}
 	lc.lexers = a.lexersLiveAt(b)
 	mcLex := findMacro("lexOK")
 	lexInv := func(st *State, v ssa.Value) string {
@@ -1149,6 +1175,14 @@ func (a *Act) loopHead(b *ssa.BasicBlock, ins []edgeIn, backs []*ssa.BasicBlock,
 	}
 	for _, phi := range lc.freshPhis {
 		g.assumeIf(reach, freshTerm(headEnv[phi], st))
+	}
+	for _, c := range aliasInv(st) {
+		g.assumeIf(reach, c)
+	}
+	if g.recvSliceInv != nil && a.top {
+		for _, c := range g.recvSliceInv(st) {
+			g.assumeIf(reach, c)
+		}
 	}
 	lc.lexInv = lexInv
 	lc.headState = st.clone()
@@ -1317,6 +1351,16 @@ func (a *Act) backEdge(from *ssa.BasicBlock, hdr *ssa.BasicBlock, cond string, s
 	}
 	for _, phi := range lc.freshPhis {
 		g.oblige("inv-preserve", fmt.Sprintf("%s:auto:fresh(%s):edge%d", lname, phi.Comment, be), cond, lc.freshTerm(env[phi], st), p1, "automatic invariant: locally built slice stays in fresh memory")
+	}
+	if g.recvSliceInv != nil && a.top {
+		for i, c := range g.recvSliceInv(st) {
+			g.oblige("inv-preserve", fmt.Sprintf("%s:auto:recv-slices#%d:edge%d", lname, i, be), cond, c, p1, "automatic invariant: slices of the receiver use their original array or memory allocated during the call")
+		}
+	}
+	if lc.aliasInv != nil {
+		for i, c := range lc.aliasInv(st) {
+			g.oblige("inv-preserve", fmt.Sprintf("%s:auto:noalias#%d:edge%d", lname, i, be), cond, c, p1, "automatic invariant: no pre-existing object holds a slice into an input buffer")
+		}
 	}
 	if lc.spec != nil {
 		for i, cl := range lc.spec.Invariants {
